@@ -28,6 +28,10 @@ pub trait Connector: Send + Sync {
         ctx: ContextRef,
     ) -> Result<(), Error>;
     fn name(&self) -> &str;
+    // names of the connectors this one hands requests over to (load balancers)
+    fn members(&self) -> &[String] {
+        &[]
+    }
     fn features(&self) -> &[Feature] {
         &[Feature::TcpForward]
     }
